@@ -231,6 +231,9 @@ func run(t *testing.T, name string, cfg boxprop.GenConfig) {
 		raw, _ := json.Marshal(c)
 		f := harness.Guarded(func() *harness.Fail { return checkSizes(c) })
 		cls := []string{"level-" + c.Level, "path-" + c.Path}
+		if c.Synth != nil {
+			cls = append(cls, "synth", "synth-"+c.Origin)
+		}
 		switch {
 		case last.encoded:
 			cls = append(cls, "accepted+encoded")
@@ -248,7 +251,7 @@ func run(t *testing.T, name string, cfg boxprop.GenConfig) {
 		if c.Info {
 			cls = append(cls, "info-between-encodes")
 		}
-		nt := last.encoded && (c.Level == "file" || len(c.Muts) > 0)
+		nt := last.encoded && (c.Level == "file" || len(c.Muts) > 0 || c.Synth != nil)
 		harness.Rec.Case(nt, raw, cls...)
 		if nt && harness.Rec.WantSample() && len(raw) < 400 {
 			harness.Rec.Sample(map[string]interface{}{"kind": "sizes", "case": c})
@@ -266,4 +269,10 @@ func run(t *testing.T, name string, cfg boxprop.GenConfig) {
 func TestPristine(t *testing.T) { run(t, "pristine", boxprop.GenConfig{MaxSeed: 300 << 10}) }
 func TestMutated(t *testing.T) {
 	run(t, "mutated", boxprop.GenConfig{MaxSeed: harness.Pick(64<<10, 300<<10), Mutate: true})
+}
+
+// TestSynth: boxes and files written by the grammar generator internal/boxgen, unmodified and with field mutations.
+func TestSynth(t *testing.T) { run(t, "synth", boxprop.GenConfig{MaxSeed: 300 << 10, SynthPct: 100}) }
+func TestSynthMutated(t *testing.T) {
+	run(t, "synthmut", boxprop.GenConfig{MaxSeed: 300 << 10, SynthPct: 100, Mutate: true, FieldOnly: true})
 }
